@@ -152,16 +152,16 @@ w2_regex = re.compile(
 # Will match much more broadly than the other aliquot regexes.
 
 ne_clean = re.compile(
-    fr"{ne_simple}\s*({quarter_subpattern})?", re.IGNORECASE)
+    fr"{ne_simple}(\s*{quarter_subpattern})?", re.IGNORECASE)
 
 se_clean = re.compile(
-    fr"{se_simple}\s*({quarter_subpattern})?", re.IGNORECASE)
+    fr"{se_simple}(\s*{quarter_subpattern})?", re.IGNORECASE)
 
 nw_clean = re.compile(
-    fr"{nw_simple}\s*({quarter_subpattern})?", re.IGNORECASE)
+    fr"{nw_simple}(\s*{quarter_subpattern})?", re.IGNORECASE)
 
 sw_clean = re.compile(
-    fr"{sw_simple}\s*({quarter_subpattern})?", re.IGNORECASE)
+    fr"{sw_simple}(\s*{quarter_subpattern})?", re.IGNORECASE)
 
 
 # N2, S2, E2, and W2 are the same under clean_qq conditions, since there
